@@ -66,6 +66,11 @@ def _lang() -> Any:
     return OPENQASM2Language()
 
 
+def _fatal(e: BaseException) -> None:
+    if isinstance(e, (KeyboardInterrupt, SystemExit, GeneratorExit, MemoryError)):
+        raise e
+
+
 def exc_info(e: BaseException) -> dict[str, Any]:
     from bqskit.ir.lang.language import LangException
     import lark
@@ -118,12 +123,14 @@ def bq_view(text: str) -> dict[str, Any]:
         with warnings.catch_warnings():
             warnings.simplefilter('ignore')
             circ = _lang().decode(text)
-    except Exception as e:  # noqa
+    except BaseException as e:  # noqa (pyo3 panics derive from BaseException)
+        _fatal(e)
         return {'status': 'exc', **exc_info(e)}
     try:
         labels, items = bq_labels_and_items(circ)
         U = refsim.unitary_of_items(items, [2] * circ.num_qudits)
-    except Exception as e:  # noqa
+    except BaseException as e:  # noqa (pyo3 panics derive from BaseException)
+        _fatal(e)
         return {'status': 'exc', 'stage': 'unitary', **exc_info(e)}
     return {'status': 'ok', 'n': circ.num_qudits, 'U': U, 'labels': labels, 'circuit': circ}
 
@@ -134,7 +141,8 @@ def qk_view(text: str) -> dict[str, Any]:
     from qiskit.quantum_info import Operator
     try:
         qc = q2.loads(text, custom_instructions=q2.LEGACY_CUSTOM_INSTRUCTIONS)
-    except Exception as e:  # noqa
+    except BaseException as e:  # noqa (pyo3 panics derive from BaseException)
+        _fatal(e)
         return {'status': 'reject', 'msg': '%s: %s' % (type(e).__name__, str(e)[:200])}
     n = qc.num_qubits
     labels: list[list[str]] = [[] for _ in range(n)]
@@ -347,7 +355,8 @@ def prog_case(arg: tuple[int, int]) -> dict[str, Any]:
         prog = Q.gen_valid_program(rng, None, bqskit_only_builtins())
         text = Q.render_program(prog)
         feats = Q.program_features(prog)
-    except Exception as e:  # noqa
+    except BaseException as e:  # noqa (pyo3 panics derive from BaseException)
+        _fatal(e)
         out['harness'] = 'generator: %s %s' % (type(e).__name__, str(e)[:200])
         return out
     out['sig'] = core.sig_of(text)
@@ -384,7 +393,8 @@ def _judge_program(prog: dict[str, Any], text: str, feats: set[str], out: dict[s
     for cls in o['classes']:
         try:
             w = classify_program_failure(prog, cls, o)
-        except Exception as e:  # noqa
+        except BaseException as e:  # noqa (pyo3 panics derive from BaseException)
+            _fatal(e)
             out['harness'] = 'classifier: %s %s %s' % (type(e).__name__, str(e)[:200], core.short_tb(e))
             continue
         w['original_text'] = text
@@ -450,7 +460,8 @@ def bq_value(text: str) -> dict[str, Any]:
         if len(ops) != 1 or len(ops[0].params) != 1:
             return {'status': 'shape', 'ops': [repr(o) for o in ops]}
         return {'status': 'ok', 'v': float(ops[0].params[0])}
-    except Exception as ex:  # noqa
+    except BaseException as ex:  # noqa (pyo3 panics derive from BaseException)
+        _fatal(ex)
         return {'status': 'exc', **exc_info(ex)}
 
 
@@ -462,7 +473,8 @@ def qk_value(text: str) -> dict[str, Any]:
         while op.name != 'u1':
             op = op.definition.data[0].operation
         return {'status': 'ok', 'v': float(op.params[0])}
-    except Exception as ex:  # noqa
+    except BaseException as ex:  # noqa (pyo3 panics derive from BaseException)
+        _fatal(ex)
         return {'status': 'reject', 'msg': '%s: %s' % (type(ex).__name__, str(ex)[:160])}
 
 
@@ -537,7 +549,8 @@ def expr_case(arg: tuple[int, int]) -> dict[str, Any]:
                 continue
         if e is None:
             e, want = ['pi'], float(np.pi)
-    except Exception as ex:  # noqa
+    except BaseException as ex:  # noqa (pyo3 panics derive from BaseException)
+        _fatal(ex)
         out['harness'] = 'expr generator: %s %s' % (type(ex).__name__, str(ex)[:200])
         return out
     return _judge_expr(e, mode, vals, inner, want, out, cnt)
@@ -719,14 +732,16 @@ def rt_outcome(cr: dict[str, Any], via_file: bool = False) -> dict[str, Any]:
         seq_a = _tokens(circ)
         _, items = bq_labels_and_items(circ)
         Ua = refsim.unitary_of_items(items, [2] * circ.num_qudits)
-    except Exception as e:  # noqa
+    except BaseException as e:  # noqa (pyo3 panics derive from BaseException)
+        _fatal(e)
         out['cls'] = 'harness'
         out['detail'] = '%s %s %s' % (type(e).__name__, str(e)[:160], core.short_tb(e))
         return out
     try:
         text = circ.to('qasm')
         out['c']['rt_encode_calls'] = 1
-    except Exception as e:  # noqa
+    except BaseException as e:  # noqa (pyo3 panics derive from BaseException)
+        _fatal(e)
         out['cls'] = 'encode_exc'
         out['exc'] = exc_info(e)
         return out
@@ -747,7 +762,8 @@ def rt_outcome(cr: dict[str, Any], via_file: bool = False) -> dict[str, Any]:
             else:
                 back = _lang().decode(text)
         out['c']['rt_decode_calls'] = 1
-    except Exception as e:  # noqa
+    except BaseException as e:  # noqa (pyo3 panics derive from BaseException)
+        _fatal(e)
         out['cls'] = 'decode_exc'
         out['exc'] = exc_info(e)
         return out
@@ -759,7 +775,8 @@ def rt_outcome(cr: dict[str, Any], via_file: bool = False) -> dict[str, Any]:
         seq_b = _tokens(back)
         _, items_b = bq_labels_and_items(back)
         Ub = refsim.unitary_of_items(items_b, [2] * back.num_qudits)
-    except Exception as e:  # noqa
+    except BaseException as e:  # noqa (pyo3 panics derive from BaseException)
+        _fatal(e)
         out['cls'] = 'decoded_circuit_exc'
         out['exc'] = exc_info(e)
         return out
@@ -950,7 +967,8 @@ def rt_case(arg: tuple) -> dict[str, Any]:
         rng = core.rng_for(seed, PID, 1, idx)
         try:
             cr = Q.gen_rt_circuit(rng, Q.qasm_gate_table())
-        except Exception as e:  # noqa
+        except BaseException as e:  # noqa (pyo3 panics derive from BaseException)
+            _fatal(e)
             out['harness'] = 'rt generator: %s %s' % (type(e).__name__, str(e)[:200])
             return out
         via_file = idx % 8 == 0
@@ -973,7 +991,11 @@ def rt_case(arg: tuple) -> dict[str, Any]:
         out['c']['rt_held'] = 1
         return out
     if o['cls'] == 'harness':
-        out['harness'] = o['detail']
+        # the *original* circuit cannot be simulated (e.g. a library gate
+        # whose get_unitary raises for an extreme parameter: C18's subject)
+        out['c']['rt_skipped_original_not_simulatable'] = 1
+        out['nontrivial'] = False
+        out['skip_detail'] = o['detail']
         return out
     out['c']['rt_disagreements'] = 1
     try:
@@ -981,7 +1003,8 @@ def rt_case(arg: tuple) -> dict[str, Any]:
         w['original_circuit_json'] = json.dumps(cr)
         out['w'].append(w)
         out['c']['disagreements_classified'] = 1
-    except Exception as e:  # noqa
+    except BaseException as e:  # noqa (pyo3 panics derive from BaseException)
+        _fatal(e)
         out['harness'] = 'rt classifier: %s %s %s' % (type(e).__name__, str(e)[:200], core.short_tb(e))
     return out
 
@@ -1029,7 +1052,8 @@ def ext_outcome(cr: dict[str, Any], which: str) -> dict[str, Any]:
             fwd = bqskit_to_cirq(circ)
             V = np.asarray(cirq.unitary(fwd))
             to_b = cirq_to_bqskit
-    except Exception as e:  # noqa
+    except BaseException as e:  # noqa (pyo3 panics derive from BaseException)
+        _fatal(e)
         info = exc_info(e)
         if which == 'qiskit':
             o['kind'] = 'ext:%s:to_foreign:%s' % (which, info['exc'])
@@ -1050,7 +1074,8 @@ def ext_outcome(cr: dict[str, Any], which: str) -> dict[str, Any]:
     try:
         back = to_b(fwd)
         W = refsim.unitary(back)
-    except Exception as e:  # noqa
+    except BaseException as e:  # noqa (pyo3 panics derive from BaseException)
+        _fatal(e)
         info = exc_info(e)
         o['kind'] = 'ext:%s:to_bqskit:%s:%s' % (which, info['exc_detail'], info['repo_site'])
         o['info'] = info
@@ -1092,7 +1117,8 @@ def ext_case(arg: tuple[int, int, str]) -> dict[str, Any]:
             if q not in used:
                 cr['ops'].append({'g': next(e['recipe'] for e in tab if e['qasm'] == 'h'), 'loc': [q], 'params': []})
         o = ext_outcome(cr, which)
-    except Exception as e:  # noqa
+    except BaseException as e:  # noqa (pyo3 panics derive from BaseException)
+        _fatal(e)
         out['harness'] = 'ext: %s %s %s' % (type(e).__name__, str(e)[:200], core.short_tb(e))
         return out
     out['sig'] = core.sig_of([which, cr])
@@ -1129,7 +1155,8 @@ def ext_case(arg: tuple[int, int, str]) -> dict[str, Any]:
             w['observed'] = '%s: %s' % (o2['info']['exc'], o2['info']['msg'][:160])
         out['w'].append(w)
         out['c']['disagreements_classified'] = 1
-    except Exception as e:  # noqa
+    except BaseException as e:  # noqa (pyo3 panics derive from BaseException)
+        _fatal(e)
         out['harness'] = 'ext classifier: %s %s %s' % (type(e).__name__, str(e)[:200], core.short_tb(e))
     return out
 
@@ -1253,6 +1280,8 @@ def main(tier: str, seed: int, replay: str | None = None) -> int:
 
     tally.flush()
     # harness health
+    if run.counters.get('rt_skipped_original_not_simulatable', 0) > 0.05 * (counts['rt'] + len(singles)):
+        run.inconclusive_because('too many round-trip inputs could not be simulated before encoding')
     nprog = counts['prog'] + counts['expr']
     if tally.harness:
         run.inconclusive_because('harness errors (%d), first: %s' % (len(tally.harness), tally.harness[0][:300]))
